@@ -3,6 +3,8 @@
 #   1. every catalogue mutation is reported            (selftest-sensitivity)
 #   2. every seeded change of seeded/ is reported      (scratch copies, /repo untouched)
 #   3. every behaviour-preserving refactoring is silent
+# NOTE: steps 2 and 3 copy /repo/ak: do not run tools/run_seeded.sh (which patches /repo itself for the time of its
+#       check) while a regression is in progress - a copy taken in that window carries the seeded change.
 # usage: tools/regress.sh [budget-s]
 b="${1:-12}"
 cd "$(dirname "$(readlink -f "$0")")/.." || exit 2
